@@ -365,8 +365,8 @@ func testedField(v ssa.Value) *types.Var {
 			continue
 		case *ssa.Call:
 			// atomic.LoadUint32(&x.f)
-			if obj := an.CalleeObj(x.Common()); obj != nil && obj.Pkg() != nil && obj.Pkg().Path() == "sync/atomic" && len(x.Common().Args) > 0 {
-				if fv := an.PathOf(x.Common().Args[0]).Last(); fv != nil {
+			if a, isA := an.AtomicOpOf(x.Common()); isA {
+				if fv := an.PathOf(a.Addr).Last(); fv != nil {
 					return fv.Origin()
 				}
 			}
@@ -388,8 +388,8 @@ func fieldWritten(in ssa.Instruction, f *types.Var) bool {
 		return fv != nil && fv.Origin() == f
 	case ssa.CallInstruction:
 		cc := x.Common()
-		if obj := an.CalleeObj(cc); obj != nil && obj.Pkg() != nil && obj.Pkg().Path() == "sync/atomic" && len(cc.Args) > 0 && (obj.Name() == "StoreUint32" || obj.Name() == "StoreInt32" || obj.Name() == "CompareAndSwapUint32") {
-			fv := an.PathOf(cc.Args[0]).Last()
+		if a, isA := an.AtomicOpOf(cc); isA && (a.Kind == "store" || a.Kind == "cas" || a.Kind == "swap") {
+			fv := an.PathOf(a.Addr).Last()
 			return fv != nil && fv.Origin() == f
 		}
 	}
